@@ -131,9 +131,10 @@ def sdiff (P : List K) : List K := (List.range (P.length - 1)).map (fun i => (na
 /-- reversal of the stored coefficient vector: `X^(n-1) · P(1/X)` for `n` stored coefficients (the degree + 1 of a
     normalised polynomial) -/
 def sreverse (P : List K) : List K := P.reverse
-/-- `P(X^b)` -/
+/-- `P(X^b)`; for `b = 0` this is the constant `P(1)` -/
 def scompose (P : List K) (b : Nat) : List K :=
   let Pn := norm P
+  if b = 0 then [seval Pn 1] else
   (List.range ((Pn.length - 1) * b + 1)).map (fun j => if j % b = 0 then coeff Pn (j / b) else 0)
 
 end Givaro.Spec.Poly
